@@ -344,6 +344,12 @@ impl RetryStream {
 
         let delayed_request = async move {
             tokio::time::sleep(backoff).await;
+            #[cfg(feature = "verif-hooks")]
+            {
+                if let Some(responder) = crate::verif_hooks::http_responder() {
+                    return responder(request).await;
+                }
+            }
             client.execute(request).await
         }
         .boxed();
